@@ -11,7 +11,6 @@ import (
 	"testing/synctest"
 	"time"
 
-	"github.com/lianxiangcloud/linkchain/app"
 	cfg "github.com/lianxiangcloud/linkchain/config"
 	cs "github.com/lianxiangcloud/linkchain/consensus"
 	"github.com/lianxiangcloud/linkchain/libs/crypto"
@@ -461,5 +460,3 @@ func (n *node) stop() {
 	synctest.Wait()
 	os.RemoveAll(n.dir)
 }
-
-var _ = app.SetPoceeds
